@@ -86,7 +86,9 @@ def late_waiter_case(rng):
 def run(check):
     n = check.pick(400, 6000)
     check.rule = ("generated workflow programs (all shapes of vlib.gen incl. fan-in up to 45 producers) x outcome vectors "
-                  "(success/error/alt/crash/drop/deploy failure/never-ending) x optional random multi-site delay plans; "
+                  "(success/error/alt/crash/drop/deploy failure/never-ending) x optional random multi-site delay plans; plus (a) outputs / step inputs that cannot be "
+                  "evaluated at run time next to never-ending steps and (b) 'late waiter' programs whose remaining outputs hang on a stage of a step that can never "
+                  "deploy/start and whose wait announcement is forced to be the last event of the run; "
                   "executed through FromYAML->Prepare->Execute in child processes; a case is non-trivial if at least one step "
                   "fails or never ends or >=2 producers feed one consumer; distinct = distinct (shape, outcome vector, result)")
     check.assumptions = ["hang oracle: Go runtime deadlock report in a timer-free child (DESIGN 4.3)",
